@@ -159,10 +159,9 @@ type inst struct {
 	bad             bool // a name the SDK rejects (F-C16-2)
 }
 
-func newInst(m metric.Meter, id, kind, k int, name, desc string, icb metric.Int64Callback, fcb metric.Float64Callback) (*inst, error) {
+func newInst(m metric.Meter, id, kind, k int, name, desc, unit string, icb metric.Int64Callback, fcb metric.Float64Callback) (*inst, error) {
 	var h any
 	var err error
-	unit := "By"
 	d, u := metric.WithDescription(desc), metric.WithUnit(unit)
 	switch kind {
 	case 0:
@@ -247,6 +246,11 @@ func (x *inst) record(ctx context.Context, n int) {
 		h.Record(ctx, recValue, a)
 	}
 }
+
+// ikey: a stream at the SDK is identified by name, description and unit (instruments that differ in
+// description or unit only are distinct streams, with or without the global indirection).
+func ikey(name, desc, unit string) string { return name + "\x00" + desc + "\x00" + unit }
+func (x *inst) key() string               { return ikey(x.name, x.desc, x.unit) }
 
 func (x *inst) observe(o metric.Observer, r int) {
 	a := metric.WithAttributes(attribute.Int("cb", r))
@@ -407,7 +411,9 @@ func badName(id, bad int) string {
 	return base
 }
 
-func (w *world) opInst(id, k, kind int, same *inst, cb bool, bad int) *inst {
+// near != nil: the name and kind of an earlier request with a different description (mode 1), unit (2) or both (3):
+// a distinct identity, exactly as it is for the SDK.
+func (w *world) opInst(id, k, kind int, same *inst, cb bool, bad int, near *inst, mode int) *inst {
 	m := w.meter(k)
 	if m == nil {
 		return nil
@@ -415,6 +421,8 @@ func (w *world) opInst(id, k, kind int, same *inst, cb bool, bad int) *inst {
 	name := badName(id, bad)
 	if same != nil {
 		name, kind = same.name, same.kind
+	} else if near != nil {
+		name, kind = near.name, near.kind
 	}
 	var icb metric.Int64Callback
 	var fcb metric.Float64Callback
@@ -437,12 +445,21 @@ func (w *world) opInst(id, k, kind int, same *inst, cb bool, bad int) *inst {
 			w.log.add(evRegCall, id, 0)
 		}
 	}
-	desc := fmt.Sprintf("d%d", id)
+	desc, unit := fmt.Sprintf("d%d", id), "By"
 	if same != nil {
-		desc = same.desc
+		desc, unit = same.desc, same.unit
 	}
-	y, err := newInst(m, id, kind, k, name, desc, icb, fcb)
-	if y.h == nil || (err != nil && bad == 0 && same == nil) {
+	if near != nil && same == nil {
+		name, kind, desc, unit = near.name, near.kind, near.desc, near.unit
+		if mode&1 != 0 {
+			desc = fmt.Sprintf("d%d", id)
+		}
+		if mode&2 != 0 {
+			unit = fmt.Sprintf("u%d", id)
+		}
+	}
+	y, err := newInst(m, id, kind, k, name, desc, unit, icb, fcb)
+	if y.h == nil || (err != nil && bad == 0 && same == nil && near == nil) {
 		w.note("instrument %d kind %d: %v", id, kind, err)
 		return nil
 	}
@@ -450,6 +467,9 @@ func (w *world) opInst(id, k, kind int, same *inst, cb bool, bad int) *inst {
 	x.bad = bad >= 1 && bad <= 4
 	if same != nil {
 		x.bad, x.desc = same.bad, same.desc
+	}
+	if near != nil && same == nil {
+		x.bad = near.bad
 	}
 	w.mu.Lock()
 	x.scope = w.mscope[k]
@@ -476,7 +496,7 @@ func (w *world) opRecord(n int, x *inst) {
 	w.log.add(evRecRet, n, 0)
 }
 
-func (w *world) opRegister(r, k int, obs []*inst) *regH {
+func (w *world) opRegister(r, k int, obs []*inst, extra ...*inst) *regH {
 	m := w.meter(k)
 	if m == nil || len(obs) == 0 {
 		return nil
@@ -493,6 +513,9 @@ func (w *world) opRegister(r, k int, obs []*inst) *regH {
 				runtime.Gosched()
 				time.Sleep(20 * time.Microsecond)
 			}
+			x.observe(o, r)
+		}
+		for _, x := range extra { // observables the callback was NOT registered for (unconnected, other meter)
 			x.observe(o, r)
 		}
 		return nil
@@ -711,33 +734,33 @@ func arrivals(rm *metricdata.ResourceMetrics) (byN map[string]map[int]int, byCB 
 			switch d := m.Data.(type) {
 			case metricdata.Sum[int64]:
 				for _, p := range d.DataPoints {
-					put(m.Name, p.Attributes, float64(p.Value), 0, false)
+					put(ikey(m.Name, m.Description, m.Unit), p.Attributes, float64(p.Value), 0, false)
 				}
 			case metricdata.Sum[float64]:
 				for _, p := range d.DataPoints {
-					put(m.Name, p.Attributes, p.Value, 0, false)
+					put(ikey(m.Name, m.Description, m.Unit), p.Attributes, p.Value, 0, false)
 				}
 			case metricdata.Gauge[int64]:
 				for _, p := range d.DataPoints {
-					put(m.Name, p.Attributes, float64(p.Value), 1, true)
+					put(ikey(m.Name, m.Description, m.Unit), p.Attributes, float64(p.Value), 1, true)
 				}
 			case metricdata.Gauge[float64]:
 				for _, p := range d.DataPoints {
-					put(m.Name, p.Attributes, p.Value, 1, true)
+					put(ikey(m.Name, m.Description, m.Unit), p.Attributes, p.Value, 1, true)
 				}
 			case metricdata.Histogram[int64]:
 				for _, p := range d.DataPoints {
 					if p.Sum != int64(p.Count)*recValue {
 						bad = append(bad, fmt.Sprintf("histogram %s: sum %d count %d", m.Name, p.Sum, p.Count))
 					}
-					put(m.Name, p.Attributes, 0, int(p.Count), true)
+					put(ikey(m.Name, m.Description, m.Unit), p.Attributes, 0, int(p.Count), true)
 				}
 			case metricdata.Histogram[float64]:
 				for _, p := range d.DataPoints {
 					if p.Sum != float64(p.Count)*recValue {
 						bad = append(bad, fmt.Sprintf("histogram %s: sum %v count %d", m.Name, p.Sum, p.Count))
 					}
-					put(m.Name, p.Attributes, 0, int(p.Count), true)
+					put(ikey(m.Name, m.Description, m.Unit), p.Attributes, 0, int(p.Count), true)
 				}
 			}
 		}
@@ -788,7 +811,7 @@ func (w *world) finish(res *result) {
 		switch e.tag {
 		case evRecCall:
 			if x := w.insts[e.a]; x != nil {
-				for i := 0; i < byN[x.name][e.b]; i++ {
+				for i := 0; i < byN[x.key()][e.b]; i++ {
 					res.Events = append(res.Events, [3]int{evSdkRec, e.b, 0})
 				}
 			}
